@@ -65,9 +65,26 @@ def opt_for(kind, r):
     return r.choice([1, 2, 3]) if kind in ("HASHHF", "HASHRPF") else 1
 
 # ------------------------------------------------------------------------------------------------------
-def basic_cases(prop, seed, tier, ops, kinds=KINDS, states=("fresh", "own", "gen"), per_input_states=2, filt=None, n_random=None, families=None, pv=1, big=None, kind_params=None, max_n=None, extra_inputs=()):
+WORDS = sorted(set(w.encode() for w in """alpha alpine amber apple apricot banana basil beta betamax birch cedar cherry chestnut cobalt coral delta ebony elm fern fig gamma gammb garnet
+ginger hazel indigo iris ivory jade jasmine juniper kiwi lemon lilac lime linden maple mint myrtle nutmeg oak olive onyx opal orchid peach pear pine plum poplar quince rose ruby sage teak thyme tulip
+umber violet walnut willow yew zeta zinc""".split()))
+
+def boundary_sweep(prop, seed, tier, ops, kinds=FC, states=("own", "fresh"), nmax=None, bsizes=(2, 3, 4, 8)):
+    """every dictionary size 1..nmax x small bucket sizes: n a multiple of the bucket size, n = kb+1 (last bucket is only a header), n < b, ..."""
+    out = []
+    nmax = nmax or (34 if tier == "quick" else len(WORDS))
+    for kind in kinds:
+        for b in bsizes:
+            for n in range(1, nmax + 1):
+                r = rng_for(seed, prop, 900000 + KINDS.index(kind) * 1000 + b * 100 + n)
+                S = WORDS[:n] if r.random() < 0.5 else sorted(r.sample(WORDS, n))
+                p = (b,) if kind in FC else param_vectors(kind, r, S, 1)[0]
+                out.append(Case(kind, p, "words%d" % n, S, states[(n + b) % len(states)], opt_for(kind, r), ops, big=False, seed=gen.splitmix(seed, n, b)))
+    return out
+
+def basic_cases(prop, seed, tier, ops, kinds=KINDS, states=("fresh", "own", "gen", "resaved"), per_input_states=2, filt=None, n_random=None, families=None, pv=1, big=None, kind_params=None, max_n=None, extra_inputs=(), corner=True):
     cases = []
-    sets = list(extra_inputs) + input_sets(prop, seed, tier, n_random=n_random, families=families, max_n=max_n)
+    sets = list(extra_inputs) + input_sets(prop, seed, tier, n_random=n_random, families=families, max_n=max_n, corner=corner)
     for ii, (iname, S) in enumerate(sets):
         for kind in kinds:
             r = rng_for(seed, prop, ii * 100 + KINDS.index(kind))
@@ -81,6 +98,8 @@ def basic_cases(prop, seed, tier, ops, kinds=KINDS, states=("fresh", "own", "gen
                         continue
                     if kind == "XBW" and not xbw_ok(S):
                         continue
+                    if kind == "FMINDEX" and not fm_ok(S, p):
+                        continue
                     cases.append(c)
     return cases
 
@@ -88,6 +107,13 @@ def xbw_ok(S):
     """XBW search/extraction is quadratic in the string length (vector-front erasure per trie level): keep its inputs moderate so that
     the CPU limit only ever fires on a genuine spin"""
     return max(len(x) for x in S) <= 300 and sum(len(x) + 1 for x in S) <= 40000
+
+def fm_ok(S, p):
+    """FM-index substring location costs (occurrences x distance to the next sample): with a BWT sampling larger than the strings and
+    long or highly repetitive strings this is legitimately slow; keep such combinations out so that the CPU limit only means a spin"""
+    L = max(len(x) for x in S)
+    samp = p[2] if len(p) > 2 else 0
+    return samp == 0 or L <= 150 or samp <= 16
 
 def nt_fc_or_any(case, counters):
     """non-trivial: >=2 strings and, for bucketed kinds, >=2 buckets or a partial last bucket"""
